@@ -24,6 +24,7 @@ CORPUS = [
 
 class PROP(c02.PROP):
     id = "C03"
+    audit_modules = ["C03"]
     theorems = ["C03_undefined_is_error", "C03_arity_is_error", "C03_call_value_and_frame", "C03_callee_scope",
                 "C03_call_independent_of_caller_env", "C03_return_propagates_through_blocks",
                 "C03_return_propagates_through_loops", "C03_binding_copies_values"]
